@@ -5,9 +5,15 @@ C15 — the satisfier produces nothing when the spending condition is false.
 namespace Btc.Miniscript
 open Btc Gen.Miniscript
 
+/-- how many of the keys have a signature offered. -/
+def availCount (ctx : Ctx) (env : SatEnv) : List Key → Nat
+  | [] => 0
+  | k :: ks => (if (offered ctx env k).isSome then 1 else 0) + availCount ctx env ks
+
+mutual
 /-- the spending condition of an expression under what a spender has: keys that sign, preimages,
-    and the lock times the transaction carries.  A quorum (`multi`, `multi_a`, `thresh`) is answered
-    "possibly true": the theorem below claims nothing of it (not covered yet). -/
+    the lock times the transaction carries; a quorum holds when at least `k` of its keys sign
+    (`multi`, `multi_a`) or at least `k` of its subexpressions hold (`thresh`). -/
 def cond (ctx : Ctx) (env : SatEnv) : Ms → Bool
   | .f0 => false
   | .f1 => true
@@ -15,10 +21,16 @@ def cond (ctx : Ctx) (env : SatEnv) : Ms → Bool
   | .older n => olderMet env n
   | .after n => afterMet env n
   | .hash h d => (preimageOf env h d).isSome
+  | .multi k keys | .multi_a k keys => decide (k ≤ availCount ctx env keys)
   | .wrap _ x => cond ctx env x
   | .bin b x y => if b.isAnd then cond ctx env x && cond ctx env y else cond ctx env x || cond ctx env y
   | .andor x y z => (cond ctx env x && cond ctx env y) || cond ctx env z
-  | _ => true
+  | .thresh k x xs => decide (k ≤ (if cond ctx env x then 1 else 0) + condCount ctx env xs)
+/-- how many of the subexpressions hold. -/
+def condCount (ctx : Ctx) (env : SatEnv) : MsL → Nat
+  | .nil => 0
+  | .cons x xs => (if cond ctx env x then 1 else 0) + condCount ctx env xs
+end
 
 theorem both_none_l (a b : Input) (h : a.stack = none) : (both a b).stack = none := by
   simp [both, h, noWitness]
@@ -34,6 +46,133 @@ theorem better_none (a b : Input) (ha : a.stack = none) (hb : b.stack = none) :
 @[simp] theorem overcomplete_stack (i : Input) : (overcomplete i).stack = i.stack := rfl
 @[simp] theorem nonCanon_stack (i : Input) : (nonCanon i).stack = i.stack := rfl
 
+/-! ### the reached[] recurrences -/
+
+/-- every entry from index `c` on satisfies `P`. -/
+def AllFrom {α : Type} (P : α → Prop) : Nat → List α → Prop
+  | _, [] => True
+  | 0, x :: r => P x ∧ AllFrom P 0 r
+  | c + 1, _ :: r => AllFrom P c r
+
+theorem AllFrom_zero {α : Type} {P : α → Prop} : ∀ (r : List α), AllFrom P 0 r → ∀ y ∈ r, P y
+  | [], _, y, hy => by simp at hy
+  | x :: r, h, y, hy => by
+    simp only [List.mem_cons] at hy
+    rcases hy with rfl | hy
+    · exact h.1
+    · exact AllFrom_zero r h.2 y hy
+
+theorem AllFrom_of_all {α : Type} {P : α → Prop} : ∀ (r : List α), (∀ y ∈ r, P y) → AllFrom P 0 r
+  | [], _ => trivial
+  | x :: r, h => ⟨h x (by simp), AllFrom_of_all r fun y hy => h y (by simp [hy])⟩
+
+theorem AllFrom_getD {α : Type} {P : α → Prop} (d : α) (hd : P d) :
+    ∀ (c : Nat) (r : List α) (j : Nat), AllFrom P c r → c ≤ j → P (r.getD j d)
+  | _, [], _, _, _ => by simpa using hd
+  | 0, x :: r, 0, h, _ => by simpa using h.1
+  | 0, x :: r, j + 1, h, _ => by simpa using AllFrom_getD d hd 0 r j h.2 (Nat.zero_le _)
+  | c + 1, x :: r, 0, _, hj => by omega
+  | c + 1, x :: r, j + 1, h, hj => by simpa using AllFrom_getD d hd c r j h (by omega)
+
+section
+variable {α : Type} (P : α → Prop) (mid : α → α → α) (last : α → α)
+
+theorem dpGo_all (hmid : ∀ p c, P p → P c → P (mid p c)) (hlast : ∀ l, P l → P (last l)) :
+    ∀ (prev : α) (rest : List α), P prev → (∀ y ∈ rest, P y) → ∀ y ∈ dpGo mid last prev rest, P y
+  | prev, [], hp, _, y, hy => by simp [dpGo] at hy; subst hy; exact hlast _ hp
+  | prev, cur :: rest, hp, hr, y, hy => by
+    simp only [dpGo, List.mem_cons] at hy
+    rcases hy with rfl | hy
+    · exact hmid _ _ hp (hr cur (by simp))
+    · exact dpGo_all hmid hlast cur rest (hr cur (by simp)) (fun z hz => hr z (by simp [hz])) y hy
+
+/-- a step whose `signature` is absent: the frontier stays. -/
+theorem dpGo_stay (hmid : ∀ p c, P c → P (mid p c)) (hlast : ∀ l, P (last l)) :
+    ∀ (prev : α) (rest : List α) (c : Nat), AllFrom P c rest → AllFrom P c (dpGo mid last prev rest)
+  | prev, [], 0, _ => ⟨hlast _, trivial⟩
+  | prev, [], c + 1, _ => trivial
+  | prev, cur :: rest, 0, h => ⟨hmid _ _ h.1, dpGo_stay hmid hlast cur rest 0 h.2⟩
+  | prev, cur :: rest, c + 1, h => dpGo_stay hmid hlast cur rest c h
+
+/-- a step whose `signature` may be present: the frontier moves by one. -/
+theorem dpGo_move (hmid : ∀ p c, P p → P c → P (mid p c)) (hlast : ∀ l, P l → P (last l)) :
+    ∀ (prev : α) (rest : List α) (c : Nat), AllFrom P c rest → AllFrom P (c + 1) (dpGo mid last prev rest)
+  | prev, [], c, _ => trivial
+  | prev, cur :: rest, 0, h =>
+    AllFrom_of_all _ (dpGo_all P mid last hmid hlast cur rest h.1 (AllFrom_zero rest h.2))
+  | prev, cur :: rest, c + 1, h => dpGo_move hmid hlast cur rest c h
+
+theorem dpStep_stay (first : α → α) (hmid : ∀ p c, P c → P (mid p c)) (hlast : ∀ l, P (last l)) :
+    ∀ (r : List α) (c : Nat), AllFrom P (c + 1) r → AllFrom P (c + 1) (dpStep first mid last r)
+  | [], _, _ => trivial
+  | r0 :: rest, c, h => dpGo_stay P mid last hmid hlast r0 rest c h
+
+theorem dpStep_move (first : α → α) (hmid : ∀ p c, P p → P c → P (mid p c))
+    (hlast : ∀ l, P l → P (last l)) :
+    ∀ (r : List α) (c : Nat), AllFrom P (c + 1) r → AllFrom P (c + 2) (dpStep first mid last r)
+  | [], _, _ => trivial
+  | r0 :: rest, c, h => dpGo_move P mid last hmid hlast r0 rest c h
+end
+
+theorem AllFrom_cast {α : Type} {P : α → Prop} {a b : Nat} {r : List α} (h : a = b) :
+    AllFrom P a r → AllFrom P b r := h ▸ id
+
+def NoStack (i : Input) : Prop := i.stack = none
+
+theorem multiStep_stay (unused sig : Input) (hs : sig.stack = none) (r : List Input) (c : Nat)
+    (h : AllFrom NoStack (c + 1) r) : AllFrom NoStack (c + 1) (multiStep unused r sig) :=
+  dpStep_stay NoStack _ _ _ (fun p cur hc => better_none _ _ (both_none_l _ _ hc) (both_none_r _ _ hs))
+    (fun l => both_none_r _ _ hs) r c h
+
+theorem multiStep_move (unused sig : Input) (r : List Input) (c : Nat)
+    (h : AllFrom NoStack (c + 1) r) : AllFrom NoStack (c + 2) (multiStep unused r sig) :=
+  dpStep_move NoStack _ _ _ (fun p cur hp hc => better_none _ _ (both_none_l _ _ hc) (both_none_l _ _ hp))
+    (fun l hl => both_none_l _ _ hl) r c h
+
+theorem sigInput_none {ctx : Ctx} {env : SatEnv} {k : Key} (h : (offered ctx env k).isSome = false) :
+    (sigInput ctx env k).stack = none := by
+  simp only [Option.isSome_eq_false_iff, Option.isNone_iff_eq_none] at h
+  simp [sigInput, h, noWitness]
+
+theorem multi_foldr (ctx : Ctx) (env : SatEnv) (unused init : Input) : ∀ (keys : List Key),
+    AllFrom NoStack (availCount ctx env keys + 1)
+      (keys.foldr (fun key r => multiStep unused r (sigInput ctx env key)) [init])
+  | [] => trivial
+  | k :: ks => by
+    have ih := multi_foldr ctx env unused init ks
+    simp only [List.foldr_cons, availCount]
+    cases ho : (offered ctx env k).isSome with
+    | false => exact AllFrom_cast (by simp) (multiStep_stay unused _ (sigInput_none ho) _ _ ih)
+    | true =>
+      have := multiStep_move unused (sigInput ctx env k) _ _ ih
+      exact AllFrom_cast (by simp <;> omega) this
+
+theorem multi_foldl (ctx : Ctx) (env : SatEnv) (unused : Input) : ∀ (keys : List Key) (r : List Input)
+    (c : Nat), AllFrom NoStack (c + 1) r →
+    AllFrom NoStack (c + availCount ctx env keys + 1)
+      (keys.foldl (fun r key => multiStep unused r (sigInput ctx env key)) r)
+  | [], r, c, h => by simpa [availCount] using h
+  | k :: ks, r, c, h => by
+    simp only [List.foldl_cons, availCount]
+    cases ho : (offered ctx env k).isSome with
+    | false =>
+      have := multi_foldl ctx env unused ks _ c (multiStep_stay unused _ (sigInput_none ho) r c h)
+      exact AllFrom_cast (by simp <;> omega) this
+    | true =>
+      have := multi_foldl ctx env unused ks _ (c + 1) (multiStep_move unused (sigInput ctx env k) r c h)
+      exact AllFrom_cast (by simp <;> omega) this
+
+theorem threshStep_stay (sub : Inputs) (hs : sub.sat.stack = none) (r : List Input) (c : Nat)
+    (h : AllFrom NoStack (c + 1) r) : AllFrom NoStack (c + 1) (threshStepIn r sub) :=
+  dpStep_stay NoStack _ _ _ (fun p cur hc => better_none _ _ (both_none_l _ _ hc) (both_none_r _ _ hs))
+    (fun l => both_none_r _ _ hs) r c h
+
+theorem threshStep_move (sub : Inputs) (r : List Input) (c : Nat)
+    (h : AllFrom NoStack (c + 1) r) : AllFrom NoStack (c + 2) (threshStepIn r sub) :=
+  dpStep_move NoStack _ _ _ (fun p cur hp hc => better_none _ _ (both_none_l _ _ hc) (both_none_l _ _ hp))
+    (fun l hl => both_none_l _ _ hl) r c h
+
+mutual
 theorem sat_none_of_cond_false (ctx : Ctx) (env : SatEnv) :
     ∀ (n : Ms), cond ctx env n = false → (inputs ctx env n).sat.stack = none
   | .f0, _ => by simp [inputs, noWitness]
@@ -49,7 +188,28 @@ theorem sat_none_of_cond_false (ctx : Ctx) (env : SatEnv) :
   | .hash hk d, h => by
     simp only [cond, Option.isSome_eq_false_iff, Option.isNone_iff_eq_none] at h
     simp [inputs, h, noWitness]
-  | .multi _ _, h | .multi_a _ _, h | .thresh _ _ _, h => by simp [cond] at h
+  | .multi k keys, h => by
+    simp only [cond, decide_eq_false_iff_not, Nat.not_le] at h
+    have := multi_foldl ctx env noPushes keys [zeroPush] 0 trivial
+    simp only [inputs, multiInput, Bool.false_eq_true, if_false]
+    exact AllFrom_getD (P := NoStack) noWitness rfl _ _ k this (by omega)
+  | .multi_a k keys, h => by
+    simp only [cond, decide_eq_false_iff_not, Nat.not_le] at h
+    have := multi_foldr ctx env zeroPush noPushes keys
+    simp only [inputs, multiInput, if_true]
+    exact AllFrom_getD (P := NoStack) noWitness rfl _ _ k this (by omega)
+  | .thresh k x xs, h => by
+    simp only [cond, decide_eq_false_iff_not, Nat.not_le] at h
+    have ih := thresh_foldr ctx env xs
+    simp only [inputs, threshInput, List.foldr_cons]
+    have step : AllFrom NoStack ((if cond ctx env x then 1 else 0) + condCount ctx env xs + 1)
+        (threshStepIn ((inputsL ctx env xs).foldr (fun sub r => threshStepIn r sub) [noPushes])
+          (inputs ctx env x)) := by
+      cases hc : cond ctx env x with
+      | false =>
+        exact AllFrom_cast (by simp) (threshStep_stay _ (sat_none_of_cond_false ctx env x hc) _ _ ih)
+      | true => exact AllFrom_cast (by simp <;> omega) (threshStep_move (inputs ctx env x) _ _ ih)
+    exact AllFrom_getD (P := NoStack) noWitness rfl _ _ k step (by omega)
   | .wrap w x, h => by
     simp only [cond] at h
     have ih := sat_none_of_cond_false ctx env x h
@@ -89,6 +249,19 @@ theorem sat_none_of_cond_false (ctx : Ctx) (env : SatEnv) :
     rcases h.1 with h1 | h1
     · exact both_none_r _ _ (sat_none_of_cond_false ctx env x h1)
     · exact both_none_l _ _ (sat_none_of_cond_false ctx env y h1)
+
+theorem thresh_foldr (ctx : Ctx) (env : SatEnv) : ∀ (xs : MsL),
+    AllFrom NoStack (condCount ctx env xs + 1)
+      ((inputsL ctx env xs).foldr (fun sub r => threshStepIn r sub) [noPushes])
+  | .nil => trivial
+  | .cons x xs => by
+    have ih := thresh_foldr ctx env xs
+    simp only [inputsL, List.foldr_cons, condCount]
+    cases hc : cond ctx env x with
+    | false =>
+      exact AllFrom_cast (by simp) (threshStep_stay _ (sat_none_of_cond_false ctx env x hc) _ _ ih)
+    | true => exact AllFrom_cast (by simp <;> omega) (threshStep_move (inputs ctx env x) _ _ ih)
+end
 
 /-- `satisfy` refuses ("no satisfaction") whenever the spending condition is false. -/
 theorem satisfy_none_of_cond_false (ctx : Ctx) (env : SatEnv) (n : Ms) (h : cond ctx env n = false) :
